@@ -196,6 +196,66 @@ def message_fragments(txt):
     return out
 
 
+def _fn_arms(txt, fn_name):
+    """spelling -> InferType variant for the string-literal arms `"a" | "b" => InferType::X` of a function."""
+    try:
+        body = _body_of(txt, r"pub\s+fn\s+" + fn_name + r"\s*\([^)]*\)\s*->\s*Self\s*\{", fn_name)
+    except ExtractError:
+        return None
+    out = {}
+    for m in re.finditer(r'((?:"[^"]*"\s*\|?\s*)+)=>\s*(?:InferType::([A-Za-z0-9_]+)|\{)', body):
+        for lit in re.findall(r'"([^"]*)"', m.group(1)):
+            out.setdefault(lit, m.group(2) or "<block>")
+    return out
+
+
+def expected_scalar(sp):
+    """What a type spelling means, from the spelling alone (independent of any table)."""
+    m = re.fullmatch(r"(u?)int(8|16|32|64)|([iu])(8|16|32|64)", sp)
+    if m:
+        unsigned = (m.group(1) == "u") if m.group(2) else (m.group(3) == "u")
+        return ("U" if unsigned else "I") + (m.group(2) or m.group(4))
+    return {"int": "I64", "float": "F64", "f64": "F64", "float64": "F64", "f32": "F32", "float32": "F32",
+            "bool": "Bool", "string": "Str"}.get(sp)
+
+
+def spelling_tables():
+    """Every scalar type spelling the front end knows (KNOWN_TYPE_NAMES, from_name, from_annotation),
+    what each table makes of it, and the inconsistencies between the tables."""
+    inf = strip_comments_keep_strings(rd("sema/src/infer.rs"))
+    ity = strip_comments_keep_strings(rd("sema/src/types/infer_type.rs"))
+    m = re.search(r"KNOWN_TYPE_NAMES\s*:\s*&\[&str\]\s*=\s*&\[(.*?)\];", inf, flags=re.S)
+    known = re.findall(r'"([^"]*)"', m.group(1)) if m else None
+    ann = _fn_arms(ity, "from_annotation")
+    nam = _fn_arms(ity, "from_name")
+    tables = {"known": known, "from_annotation": ann, "from_name": nam}
+    spellings = sorted(set(known or []) | set(ann or {}) | set(nam or {}))
+    norm = {"String": "Str", "Null": "Void"}
+    rows, bad = {}, []
+    for sp in spellings:
+        a = (ann or {}).get(sp)
+        n = (nam or {}).get(sp)
+        exp = expected_scalar(sp)
+        rows[sp] = {"known": (sp in known) if known is not None else None, "from_annotation": a, "from_name": n, "expected": exp}
+        if exp is None:
+            continue            # array / vec / null / void / a spelling this check has no meaning for
+        for tname, got in (("from_annotation", a), ("from_name", n)):
+            tab = tables[tname]
+            if tab is None:
+                continue
+            if got is None:
+                bad.append(f"`{sp}` is a known type spelling but {tname} has no arm for it (it falls through to Dynamic/struct)")
+            elif norm.get(got, got) != exp:
+                bad.append(f"{tname} resolves `{sp}` to {got}, the spelling means {exp}")
+        if known is not None and sp not in known:
+            bad.append(f"`{sp}` is resolved by from_annotation/from_name but is not in KNOWN_TYPE_NAMES")
+    for tname in ("from_annotation", "from_name"):
+        for sp in (tables[tname] or {}):
+            if expected_scalar(sp) is None and sp not in ("null", "void", "array", "vec"):
+                bad.append(f"{tname} has an arm for `{sp}`, which this check does not know: extend expected_scalar")
+    return {"rows": rows, "inconsistencies": bad, "parsed": {k: v is not None for k, v in tables.items()}}
+
+
 @extract.register("LayoutTable")
 def gen_layout_table():
     variants = airtype_variants()
@@ -225,6 +285,10 @@ def gen_layout_table():
     ltxt = strip_comments_keep_strings(rd("air/src/layout.rs"))
     side["phase_order"] = phase_order(ltxt)
     side["fragments"] = message_fragments(ltxt)
+    try:
+        side["spellings"] = spelling_tables()
+    except ExtractError as e:
+        side["spellings"] = {"rows": {}, "inconsistencies": [], "parsed": {}, "error": str(e)}
     json.dump(side, open(side_path("side"), "w"))
     out = [HEADER.format(src="air/src/layout.rs (layout_of) and air/src/lib.rs (AirType)"),
            "From Coq Require Import NArith.\n",
